@@ -120,7 +120,7 @@ func runC26(c *Ctx) {
 	}
 	disrupt := closer != 0 || fault >= 3 || (serverStall > 0 && !noDeadline)
 
-	w := c.NewWorld(simrt.Config{LockYield: lockYield, AtomicYield: atomYield, PreemptPct: 5 + 15*ch.Pick(4, "preempt")})
+	w := c.NewWorld(simrt.Config{LockYield: lockYield, UnlockYield: lockYield && ch.Bool(50, "unlockyield"), AtomicYield: atomYield, PreemptPct: 5 + 15*ch.Pick(4, "preempt")})
 	ResetStamp()
 	l := simnet.NewLink("c")
 	l.Frag = frag
